@@ -2,7 +2,7 @@
   Driver for C18: line protocol, see harness/props/c18.py.  Strings travel as comma-separated code points
   ("-" = empty string) so that whitespace, control characters and "|" survive the line protocol.
 
-  bytes|<cps>                    -> ok <n> | error format|noninteger|negative|index         (convert_to_bytes(str))
+  bytes|<cps>                    -> ok <n> | error format|noninteger|negative|index|range   (convert_to_bytes(str))
   int|<z>                        -> ok <n> | error negative                                 (convert_to_bytes(int))
   ratio|<num>|<den>              -> ok <n> | error noninteger|negative      (convert_to_bytes(float), den=0: inf/nan)
   denote|<cps>                   -> some <num>/<den> | none                                 (the denotation)
@@ -23,6 +23,7 @@ def showBytesErr : BytesErr → String
   | .nonInteger => "noninteger"
   | .negative => "negative"
   | .index => "index"
+  | .range => "range"
 
 def showBytes : Except BytesErr Nat → String
   | .ok n => s!"ok {n}"
